@@ -63,6 +63,18 @@ SPECS = [
 ]
 
 
+SPECS_CURVES = [
+    H("c11::g1p_from_compressed_contract", "C16.K.g1p.from_compressed",
+      "G1Projective::from_bytes (checked, compressed) is Some iff uncompress succeeded AND the on-curve AND the subgroup oracle said yes for the decompressed point",
+      ["curves/src/bls12_381/g1.rs::G1Projective::from_compressed"], "all 48-byte inputs, all oracle answers", "G1Projective::from_compressed:contract",
+      est=8, timeout={"quick": 600, "thorough": 1800}, oracle_fallback=["decode-offsubgroup", "g1p"], scenario_bin="replay_real"),
+    H("c11::g2p_from_compressed_contract", "C16.K.g2p.from_compressed",
+      "G2Projective::from_bytes (checked, compressed; the reader of ParamsVerifierKZG / ParamsKZG g2, s_g2) is Some iff uncompress succeeded AND the on-curve AND the subgroup oracle said yes",
+      ["curves/src/bls12_381/g2.rs::G2Projective::from_compressed"], "all 96-byte inputs, all oracle answers", "G2Projective::from_compressed:contract",
+      est=12, timeout={"quick": 600, "thorough": 1800}, oracle_fallback=["decode-offsubgroup", "g2p"], scenario_bin="replay_real"),
+]
+
+
 def check(run):
     run.bounds.append("K/C16: buffers <= 8 (verifying-key framing), <= 18 (architecture descriptor), <= 48 bytes (points); every byte, every length and every stubbed-oracle answer symbolic")
     run.assumptions += [
@@ -77,6 +89,10 @@ def check(run):
         "K/C16: proving keys (local artefacts)",
     ]
     obs = kani.run_harnesses(run, CRATE, SPECS, jobs=6)
+    # the checked compressed decoders of the PROJECTIVE types are what the proof / parameter readers call
+    # (ParamsVerifierKZG::read -> G2Projective::from_bytes; proof commitments -> G1Projective::from_bytes):
+    # same harnesses as under C11, harness crate engines/kani/curves (added after seeded C16-c)
+    obs += kani.run_harnesses(run, "engines/kani/curves", SPECS_CURVES, jobs=2)
     for ob in obs:
         if ob.status == core.INCONCLUSIVE and "no native replay exists" in (ob.detail or "") and ob.id in PINS:
             _extract_by_pins(run, ob, *PINS[ob.id])
